@@ -20,3 +20,5 @@ open RV.C06
 #print axioms patch_operation_doc
 #print axioms trig_loop_refines
 #print axioms each_triple_one_block_trig_loop
+#print axioms hext_json_array_roundtrip
+#print axioms hext_row_roundtrip
